@@ -15,3 +15,30 @@ impl InputBuffer {
         b
     }
 }
+
+#[cfg(kani)]
+impl InputBuffer {
+    /// harness helper: a built (read-only) buffer over a concrete text (any widths), identity offset map, tables filled by a
+    /// concrete loop over the characters
+    pub(crate) fn verif_text(text: &str) -> InputBuffer {
+        let mut b = InputBuffer::default();
+        b.original = String::from(text);
+        b.modified = String::from(text);
+        for i in 0..text.len() + 1 {
+            b.m2o.push(i);
+        }
+        let mut c = 0usize;
+        for (off, ch) in text.char_indices() {
+            b.mod_chars.push(ch);
+            b.mod_c2b.push(off);
+            for _ in 0..ch.len_utf8() {
+                b.mod_b2c.push(c);
+            }
+            c += 1;
+        }
+        b.mod_c2b.push(text.len());
+        b.mod_b2c.push(c);
+        b.state = BufferState::RO;
+        b
+    }
+}
